@@ -80,7 +80,8 @@ class Worker:
 
 def pool_map(items, fn, nworkers=4, threads=8):
     """fn(worker, item) for every item, on nworkers scratch workers."""
-    workers = [Worker(k, threads) for k in range(nworkers)]
+    base = int(os.environ.get("FCV_POOL_BASE", "0"))  # two pools at once must not share workers
+    workers = [Worker(base + k, threads) for k in range(nworkers)]
     for w in workers:
         w.sync()
     q = queue.Queue()
